@@ -762,6 +762,11 @@ def _decorate_inline(context, fn):
         def go(*args, **kw):
             return dec(context, *args, **kw)
 
+        try:
+            go.__name__ = render_fn.__name__
+        except TypeError:
+            # py2k only
+            pass
         return go
 
     return decorate_render
